@@ -109,7 +109,8 @@ def _ob_slices(nmax):
 
 def ob_graph_sets(h):
     """Each record has exactly one graph set keyed by its own name -- also on the second and later calls."""
-    shape = h.choice("tree", [(1, 0), (2, 0), (1, 2), (2, 1)])          # (records on the root, number of sub-zones with one record each)
+    # (records on the root, number of sub-zones with one record each); a community / region root has no record of its own
+    shape = h.choice("tree", [(1, 0), (2, 0), (1, 2), (2, 1), (0, 2), (0, 1)])
     h.stub(gd, "_create_graph_set", lambda t, key: {"name": key, "graphs": []})
     old = gd._create_graph_set
     if not h.symbolic:
@@ -149,7 +150,13 @@ def ob_save_graph_data(h):
 
 
 def obligations():
-    return [
+    from . import C17
+    shared = []
+    for o in C17.obligations():
+        if o.name.startswith("C17.clean") and o.tier == "quick":
+            shared.append(Obligation(o.name.replace("C17.", "C13."), o.fn, kind=o.kind, functions=o.functions, bound=o.bound, max_paths=o.max_paths, params=o.params,
+                                     doc="(shared with C17) " + (o.doc or "emitted points reproduce the non-flat extent of the curve")))
+    return shared + [
         Obligation("C13.points", ob_points, kind="proof", functions=[gd._create_curve], expect=("point_is_round_2dp",), doc="POINTS (path-complete for 1..3 pairs)"),
         Obligation("C13.classify", ob_classify, kind="proof", functions=[gd._classify_segment, gd._segment_streamloc, gd._streamloc_colour], doc="SIGN, colour map"),
         Obligation("C13.maps.b", ob_maps, kind="bounded", bound="all stream-location forms x {CC, TSP}", functions=[gd._graph_cc, gd._segment_streamloc]),
